@@ -431,7 +431,8 @@ uint8_t
 oscore_increment_sender_seq(oscore_ctx_t *ctx) {
   ctx->sender_context->seq++;
 
-  if (ctx->sender_context->seq >= OSCORE_SEQ_MAX) {
+  /* The value just used must be below OSCORE_SEQ_MAX (what a recipient accepts) */
+  if (ctx->sender_context->seq > OSCORE_SEQ_MAX) {
     return 0;
   } else {
     return 1;
